@@ -635,6 +635,14 @@ def main(tier: str) -> int:
     ck.proof(extra_targets=["Run/C08.vo"])
     gen_dir(PROP)
     consts = run_py(OPTRACE, {"mode": "lexer_consts"})
+    # fixes/C08-reject-own-namespace-override.patch: `#override <own namespace>` is refused while the header is parsed (outside
+    # Model/Defs.v).  A configuration the tree refuses outright (witness: one plain function) is run with that override renamed,
+    # so its pack format / other overrides stay covered; a tree that accepts it keeps it (finding C08-own-namespace-override).
+    own = [cfg for cfg in CONFIGS if cfg["ns"] in cfg["overrides"]]
+    for cfg, r in zip(own, compile_batch([job_of([F("w", 1)], cfg) for cfg in own], chunk=10)):
+        if not r["ok"] and r.get("exc") == "HeaderSyntaxException":
+            cfg["overrides"] = [o + "_lib" if o == cfg["ns"] else o for o in cfg["overrides"]]
+            ck.cov.setdefault("own_namespace_override_rejected", []).append(cfg["ns"])
     # the folder Predicate.locations writes to under each configuration (the json type its add_json call passes)
     pr = compile_batch([job_of([("genjson", "zz", 1)], cfg) for cfg in CONFIGS], chunk=10)
     for cfg, r in zip(CONFIGS, pr):
